@@ -112,7 +112,7 @@ pub struct Obs {
     pub disp_w: String,
 }
 
-pub fn std_hash<T: std::hash::Hash>(t: &T) -> u64 {
+pub fn std_hash<T: std::hash::Hash + ?Sized>(t: &T) -> u64 {
     use std::hash::Hasher;
     let mut h = std::collections::hash_map::DefaultHasher::new();
     t.hash(&mut h);
